@@ -19,6 +19,8 @@ def run(repo, run, tier):
     containment(repo, run, m)
     atomicity(repo, run, m)
     balance_rule(repo, run, "C12.4", want="exceptional")
+    from .c06 import slope_cache
+    slope_cache(repo, run, rule_id="C12.5")
     trim(repo, run, m)
 
 
